@@ -11,6 +11,8 @@ import (
 	"fmt"
 	"sort"
 	"strings"
+
+	"github.com/gogo/protobuf/proto"
 	"time"
 
 	"github.com/cosmos/cosmos-sdk/client"
@@ -133,6 +135,22 @@ type chainMachine struct {
 	leaseEnded map[string]int64 // payment key of a lease -> height at which the lease stopped being active
 	deposits   map[string]sdk.Int
 	twin       *AkashApp // optional second instance (C07)
+	svcRoute   bool      // the next transaction addresses the protobuf Msg service instead of the legacy router
+}
+
+// cmServiceMsg wraps a request the way a client addressing the module's protobuf Msg service
+// does: type URL "/<package>.Msg/<Method>", where the request type is "<package>.Msg<Method>".
+func cmServiceMsg(msg sdk.Msg) sdk.Msg {
+	name := proto.MessageName(msg)
+	i := strings.LastIndex(name, ".")
+	if i < 0 || !strings.HasPrefix(name[i+1:], "Msg") {
+		return msg
+	}
+	req, ok := msg.(sdk.MsgRequest)
+	if !ok {
+		return msg
+	}
+	return sdk.ServiceMsg{MethodName: "/" + name[:i] + ".Msg/" + strings.TrimPrefix(name[i+1:], "Msg"), Request: req}
 }
 
 // Two accounts play both roles (tenant1 also runs a provider, prov0 also deploys), so that
@@ -313,7 +331,13 @@ func (m *chainMachine) advance(n int64) {
 
 func (m *chainMachine) signTx(msg sdk.Msg, signer *cmActor, more ...sdk.Msg) []byte {
 	b := m.txcfg.NewTxBuilder()
-	if err := b.SetMsgs(append([]sdk.Msg{msg}, more...)...); err != nil {
+	msgs := append([]sdk.Msg{msg}, more...)
+	if m.svcRoute {
+		for i := range msgs {
+			msgs[i] = cmServiceMsg(msgs[i])
+		}
+	}
+	if err := b.SetMsgs(msgs...); err != nil {
 		panic(err)
 	}
 	b.SetGasLimit(50_000_000)
